@@ -6,6 +6,8 @@ structure St where
   main : Proc := { inst := fun _ => initInst 0 0 0, glob := fun _ => 0 }
   solo : Proc := { inst := fun _ => initInst 0 0 0, glob := fun _ => 0 }
   outs : List (Nat × List Val) := []
+  /-- a saved state of the process-global generators (`saverng` / `restorerng`: the reference of an UNSEEDED reset) -/
+  savedRng : Val := 0
 
 def progNamed : String → Option (List Cmd)
   | "construct" => some constructProg
@@ -15,6 +17,18 @@ def progNamed : String → Option (List Cmd)
   | "step" => some stepProg
   | "stepclean" => some stepProgClean
   | "resetcond" => some resetProgCond
+  | _ => none
+
+/-- the seed argument of a call: `none` or an integer -/
+def seedArg : String → Option (Option Int)
+  | "none" => some none
+  | s => match s.toInt? with | some v => some (some v) | none => none
+
+/-- a CALL with an optional seed: `resetopt` = `reset(seed=…)`, `constructopt` = `PrimaiteGymEnv(cfg)` with that `game.seed` -/
+def callNamed : String → Option (Option Int → Option (List Cmd × Val))
+  | "resetopt" => some (fun s => resetCall s)
+  | "constructopt" => some (fun s => constructCall s)
+  | "resetopttruthy" => some (fun s => resetCallTruthy s)
   | _ => none
 
 def showVals (vs : List Val) : String := ",".intercalate (vs.map toString)
@@ -34,16 +48,32 @@ def stepD (st : St) : List String → St × String
       let put (p : Proc) : Proc := { p with inst := fun j => if j = i then initInst cfg nmne io rng sched var else p.inst j }
       ({ st with main := put st.main, solo := put st.solo }, "ok")
     | _, _, _, _, _, _, _ => (st, "bad-op")
+  | ["saverng"] => ({ st with savedRng := st.main.glob gRng }, "ok")
+  | ["restorerng"] =>
+    let put (p : Proc) : Proc := { p with glob := upd p.glob gRng st.savedRng }
+    ({ st with main := put st.main, solo := put st.solo }, "ok")
+  | ["new", i, cfg, nmne, io, rng, sched, var, build] =>
+    match i.toNat?, cfg.toInt?, nmne.toInt?, io.toInt?, rng.toInt?, sched.toInt?, var.toInt?, build.toInt? with
+    | some i, some cfg, some nmne, some io, some rng, some sched, some var, some build =>
+      let put (p : Proc) : Proc := { p with inst := fun j => if j = i then initInst cfg nmne io rng sched var build else p.inst j }
+      ({ st with main := put st.main, solo := put st.solo }, "ok")
+    | _, _, _, _, _, _, _, _ => (st, "bad-op")
   | ["ev", i, kind, arg] =>
-    match i.toNat?, progNamed kind, arg.toInt? with
-    | some i, some prog, some a =>
+    let pa : Option (List Cmd × Val) :=
+      match callNamed kind, seedArg arg with
+      | some f, some s => f s
+      | _, _ => match progNamed kind, arg.toInt? with
+        | some prog, some a => some (prog, a)
+        | _, _ => none
+    match i.toNat?, pa with
+    | some i, some (prog, a) =>
       let r := stepProc st.main ⟨i, prog, a⟩
       let st1 := { st with main := r.1, outs := st.outs ++ [(i, r.2)] }
       if i = 0 then
         let r' := stepProc st.solo ⟨i, prog, a⟩
         ({ st1 with solo := r'.1 }, (if r.2 = r'.2 then "same " else "differs ") ++ showVals r.2)
       else (st1, "other " ++ showVals r.2)
-    | _, _, _ => (st, "bad-op")
+    | _, _ => (st, "bad-op")
   | ["cmptail", i, j, n] =>
     match i.toNat?, j.toNat?, n.toNat? with
     | some i, some j, some n =>
